@@ -27,7 +27,9 @@ struct rec { uint32_t idx; uint32_t step; uint8_t n; uint8_t cost[MAXALT]; };
 #define NWIT 32
 
 struct result {
+	int noprune;			/* in: verification re-run, vrt_state_seen() never prunes */
 	int status;
+	int pruned;			/* ended early at an already expanded canonical state */
 	int trunc_rec;			/* trace buffer overflowed */
 	unsigned long steps;
 	unsigned long first_free_step;	/* step index of the last deviation (tree-node accounting) */
@@ -63,6 +65,11 @@ void vrt_run_execution(struct vrt_scenario *sc, const struct config *cfg, const 
 		       struct result *res) __attribute__((noreturn));
 int vrt_promo_lookup(const struct config *cfg, uintptr_t pc);
 void vrt_promo_insert(struct config *cfg, uintptr_t pc);
+
+/* shared canonical-state table for sequence enumeration (E2); allocated by the explorer */
+#define SEEN_SLOTS (1UL << 22)
+struct seen_slot { unsigned long key; unsigned long meta; };
+extern struct seen_slot *vrt_seen_tab;
 
 static inline unsigned long vrt_mix(unsigned long h, unsigned long v)
 {
